@@ -628,6 +628,18 @@ theorem maybe_correct_neg_dim_range (dim r : Int) (shape : List Int) (ndim : Opt
     · subst h; exact ⟨by omega, by omega, .inl rfl⟩
   · cases h
 
+/-- normalising twice changes nothing, and the negative spelling `d - n` of a dim `0 ≤ d < n` designates the same dim -/
+theorem maybe_correct_neg_dim_canonical (d : Int) (shape : List Int) (ndim : Option Int)
+    (h0 : 0 ≤ d) (h1 : d < ndim.getD (Int.ofNat shape.length)) :
+    Gen.maybeCorrectNegDim d shape ndim = .ok d
+      ∧ Gen.maybeCorrectNegDim (d - ndim.getD (Int.ofNat shape.length)) shape ndim = .ok d := by
+  rw [maybe_correct_neg_dim_spec, maybe_correct_neg_dim_spec]
+  simp only
+  constructor
+  · rw [if_pos ⟨by omega, h1⟩, if_neg (by omega)]
+  · rw [if_pos ⟨by omega, by omega⟩, if_pos (by omega)]
+    congr 1; omega
+
 example : Gen.maybeCorrectNegDim (-1) [4, 5, 6] none = .ok 2 := by rfl
 example : Gen.maybeCorrectNegDim 3 [4, 5, 6] none = .error "IndexError" := by rfl
 example : Gen.maybeCorrectNegDim (-2) [] (some 2) = .ok 0 := by rfl
@@ -656,6 +668,24 @@ theorem parse_to_first_fit (c : Call) :
   rcases firstFit c sigs with ⟨i, hi, bound, hf, hlt, hres⟩ | ⟨hall, hres⟩
   · exact .inl ⟨i, hi, bound, hf, hlt, by rw [hres]⟩
   · exact .inr ⟨hall, by rw [hres]⟩
+
+/-- overload resolution is unambiguous: when the first positional argument is not a python int, all the
+signatures that fit a call bind it to the same result — so the order of the three signatures only matters for
+`to(1)`-like calls (device index for the first signature, a number for the third) -/
+theorem parse_to_unambiguous (c : Call) (i j : Nat) (hi : i < sigs.length) (hj : j < sigs.length)
+    (bi bj : List (String × Val)) (fi : Fits sigs[i] c bi) (fj : Fits sigs[j] c bj)
+    (hint : ∀ n rest, c.pos ≠ .pyInt n :: rest) : finish bi = finish bj :=
+  fits_unambiguous c i j hi hj bi bj fi fj hint
+
+/-- hence, away from python-int first arguments, the twin returns what *any* fitting signature gives -/
+theorem parse_to_any_fit (c : Call) (i : Nat) (hi : i < sigs.length) (b : List (String × Val))
+    (f : Fits sigs[i] c b) (hint : ∀ n rest, c.pos ≠ .pyInt n :: rest) : parseToPy c = finish b := by
+  rcases parse_to_first_fit c with ⟨j, hj, bj, fj, _, hres⟩ | ⟨hall, _⟩
+  · rw [hres]; exact fits_unambiguous c j i hj hi bj b fj f hint
+  · exact absurd ⟨b, f⟩ (hall sigs[i] (List.getElem_mem hi))
+
+/-- the order does matter for a python int: first signature (a device index) wins over the third (a number) -/
+example : parseToPy ⟨[.pyInt 1], []⟩ = .ok (some (accel 1)) none false none := by decide
 
 /-- `copy=` (positional or keyword, whatever its value) is refused with RuntimeError once the call fits -/
 theorem parse_to_copy_refused (bound : List (String × Val)) (h : (lookup bound "copy").isSome = true) :
